@@ -185,6 +185,73 @@ structure Inv (G : Grammar) (C : Cert) (st : St) : Prop where
   total : ∀ (s : Nat) (row : List (Nat × Nat)) (I : List Item), st.trans[s]? = some row → st.states[s]? = some I →
     ∀ it ∈ I, ∀ x ∈ C.nextSyms it, (row.lookup x).isSome = true
 
+theorem Inv.push {st : St} {J : List Item} (hinv : Inv G C st) (e2 : Closed C (norm J))
+    (e3 : ∀ y ∈ norm J, ItemOK G C y) (e4 : JustOrder C [] J.reverse) :
+    Inv G C { st with states := st.states.push (norm J), just := st.just.push J.reverse } := by
+  refine ⟨by simp [hinv.size], by simp; have := hinv.tsize; omega, ?_, ?_, ?_, ?_, ?_, ?_⟩
+  · intro k K L hK hL it
+    rcases of_push_some hK with hK | ⟨hk, rfl⟩
+    · rcases of_push_some hL with hL | ⟨hk', _⟩
+      · exact hinv.mem k K L hK hL it
+      · have := (Array.getElem?_eq_some_iff.mp hK).1
+        have := hinv.size
+        omega
+    · rcases of_push_some hL with hL | ⟨_, rfl⟩
+      · have := (Array.getElem?_eq_some_iff.mp hL).1
+        have := hinv.size
+        omega
+      · rw [List.mem_reverse, mem_norm]
+  · intro k K hK
+    rcases of_push_some hK with hK | ⟨_, rfl⟩
+    · exact hinv.closed k K hK
+    · exact e2
+  · intro k K hK
+    rcases of_push_some hK with hK | ⟨_, rfl⟩
+    · exact hinv.ok k K hK
+    · exact e3
+  · intro k L hL
+    rcases of_push_some hL with hL | ⟨_, rfl⟩
+    · exact hinv.order k L hL
+    · exact e4
+  · intro s r hr e he
+    obtain ⟨A, B, hA, hB, hE⟩ := hinv.edges s r hr e he
+    exact ⟨A, B, push_some hA, push_some hB, hE⟩
+  · intro s r K hr hK it hit y hy
+    have hs : s < st.states.size := by
+      have h1 : s < st.trans.size := (Array.getElem?_eq_some_iff.mp hr).1
+      have := hinv.tsize
+      omega
+    rcases of_push_some hK with hK | ⟨hk, _⟩
+    · exact hinv.total s r K hr hK it hit y hy
+    · omega
+
+
+theorem Inv.pushRow {st1 : St} {I : List Item} {i : Nat} {row : List (Nat × Nat)} (r1 : Inv G C st1)
+    (hI1 : st1.states[i]? = some I) (hts : st1.trans.size = i)
+    (r4 : ∀ e ∈ row, ∃ J, st1.states[e.2]? = some J ∧ EdgeOK C I e.1 J)
+    (r5 : ∀ it ∈ I, ∀ y ∈ C.nextSyms it, (row.lookup y).isSome = true) :
+    Inv G C { st1 with trans := st1.trans.push row } := by
+  have hlt : i < st1.states.size := (Array.getElem?_eq_some_iff.mp hI1).1
+  refine ⟨r1.size, by simp [hts]; omega, r1.mem, r1.closed, r1.ok, r1.order, ?_, ?_⟩
+  · intro s rw' hr e hem
+    rcases of_push_some hr with hr | ⟨hs, rfl⟩
+    · exact r1.edges s rw' hr e hem
+    · obtain ⟨B, hB, hE⟩ := r4 e hem
+      rw [hts] at hs
+      subst hs
+      exact ⟨I, B, hI1, hB, hE⟩
+  · intro s rw' K hr hK it hit y hy
+    rcases of_push_some hr with hr | ⟨hs, rfl⟩
+    · exact r1.total s rw' K hr hK it hit y hy
+    · rw [hts] at hs
+      subst hs
+      have : K = I := by
+        have h1 : st1.states[s]? = some K := hK
+        rw [hI1] at h1
+        cases h1; rfl
+      subst this
+      exact r5 it hit y hy
+
 theorem lookup_snoc_isSome {x k : Nat} (row : List (Nat × Nat)) :
     ((row ++ [(x, k)]).lookup x).isSome = true := by
   rw [List.lookup_append]
@@ -245,43 +312,7 @@ theorem expand_inv (hT : TabOK G C) (hW : WfG G) {I : List Item} {i : Nat} :
           · exact r5 y (Or.inr hy)
       | none =>
         simp only [hi] at h
-        have hinv' : Inv G C { st with states := st.states.push (Gen.norm J), just := st.just.push J.reverse } := by
-          refine ⟨by simp [hinv.size], by simp; have := hinv.tsize; omega, ?_, ?_, ?_, ?_, ?_, ?_⟩
-          · intro k K L hK hL it
-            rcases of_push_some hK with hK | ⟨hk, rfl⟩
-            · rcases of_push_some hL with hL | ⟨hk', _⟩
-              · exact hinv.mem k K L hK hL it
-              · have := (Array.getElem?_eq_some_iff.mp hK).1
-                have := hinv.size
-                omega
-            · rcases of_push_some hL with hL | ⟨_, rfl⟩
-              · have := (Array.getElem?_eq_some_iff.mp hL).1
-                have := hinv.size
-                omega
-              · rw [List.mem_reverse, mem_norm]
-          · intro k K hK
-            rcases of_push_some hK with hK | ⟨_, rfl⟩
-            · exact hinv.closed k K hK
-            · exact e2
-          · intro k K hK
-            rcases of_push_some hK with hK | ⟨_, rfl⟩
-            · exact hinv.ok k K hK
-            · exact e3
-          · intro k L hL
-            rcases of_push_some hL with hL | ⟨_, rfl⟩
-            · exact hinv.order k L hL
-            · exact e4
-          · intro s r hr e he
-            obtain ⟨A, B, hA, hB, hE⟩ := hinv.edges s r hr e he
-            exact ⟨A, B, push_some hA, push_some hB, hE⟩
-          · intro s r K hr hK it hit y hy
-            have hs : s < st.states.size := by
-              have h1 : s < st.trans.size := (Array.getElem?_eq_some_iff.mp hr).1
-              have := hinv.tsize
-              omega
-            rcases of_push_some hK with hK | ⟨hk, _⟩
-            · exact hinv.total s r K hr hK it hit y hy
-            · omega
+        have hinv' := hinv.push e2 e3 e4
         obtain ⟨r1, r2, r3, r3', r4, r5⟩ := expand_inv hT hW xs _ _ st' row' h hinv' (push_some hI) hxs' (by
           intro e he
           rcases List.mem_append.mp he with he | he
@@ -331,26 +362,9 @@ theorem bfs_inv (hT : TabOK G C) (hW : WfG G) : ∀ (f i : Nat) (st st' : St), b
         have hI1 := r3 i I hI
         have hlt : i < st1.states.size := (Array.getElem?_eq_some_iff.mp hI1).1
         have hts : st1.trans.size = i := by rw [r2]; exact hi
-        obtain ⟨b1, b2, b3, b3'⟩ := bfs_inv hT hW f (i + 1) _ st' h (by
-          refine ⟨r1.size, by simp [hts]; omega, r1.mem, r1.closed, r1.ok, r1.order, ?_, ?_⟩
-          · intro s rw' hr e hem
-            rcases of_push_some hr with hr | ⟨hs, rfl⟩
-            · exact r1.edges s rw' hr e hem
-            · obtain ⟨B, hB, hE⟩ := r4 e hem
-              rw [hts] at hs
-              subst hs
-              exact ⟨I, B, hI1, hB, hE⟩
-          · intro s rw' K hr hK it hit y hy
-            rcases of_push_some hr with hr | ⟨hs, rfl⟩
-            · exact r1.total s rw' K hr hK it hit y hy
-            · rw [hts] at hs
-              subst hs
-              have : K = I := by
-                have h1 : st1.states[s]? = some K := hK
-                rw [hI1] at h1
-                cases h1; rfl
-              subst this
-              exact r5 y (Or.inr (mem_normN.mpr (List.mem_flatMap.mpr ⟨it, hit, hy⟩)))) (by simp [hts])
+        obtain ⟨b1, b2, b3, b3'⟩ := bfs_inv hT hW f (i + 1) _ st' h
+          (r1.pushRow hI1 hts r4 (fun it hit y hy =>
+            r5 y (Or.inr (mem_normN.mpr (List.mem_flatMap.mpr ⟨it, hit, hy⟩))))) (by simp [hts])
         exact ⟨b1, b2, fun k K hK => b3 k K (r3 k K hK), fun k L hL => b3' k L (r3' k L hL)⟩
 
 end Gen
